@@ -208,6 +208,10 @@ pub struct Setup {
     /// number of validators (0 = staking unused); unbonding time in seconds
     pub validators: u8,
     pub unbonding_time: u64,
+    /// 0 = the default address generator; k > 0 = a custom generator that maps every unsalted
+    /// instantiation to one of k addresses (so that address collisions happen)
+    #[serde(default)]
+    pub addr_pool: u8,
 }
 
 #[derive(Clone, Debug, Serialize, Deserialize, PartialEq, Eq)]
